@@ -138,11 +138,6 @@ def table_columns(tok):
 
 
 # ----------------------------------------------------------------------------- brace rules
-def brace_balance(words):
-    s = ''.join(words)
-    return s.count('{') - s.count('}')
-
-
 def needs_braces(words, n):
     """An instruction-level comment needs the brace wrapper when it covers more than one
     instruction, or when its rendered text starts with an opening brace."""
